@@ -332,58 +332,31 @@ type engSnap struct {
 	Files map[string]string
 }
 
-func prepareEngine(cs *chartSpec) (*chart.Chart, chartutil.Values, error) {
+// prepareEngine loads the chart once and resolves its dependencies; the returned chart object is
+// then rendered many times (sequentially and concurrently).
+func prepareEngine(cs *chartSpec) (*chart.Chart, map[string]any, error) {
 	ch := cs.Files.Build()
 	vals := env.DeepCopyMap(cs.Vals)
 	if err := chartutil.ProcessDependencies(ch, vals); err != nil {
 		return nil, nil, err
 	}
-	top, err := chartutil.ToRenderValues(ch, vals, chartutil.ReleaseOptions{Name: "rel", Namespace: "ns1", Revision: 1, IsInstall: true}, chartutil.DefaultCapabilities.Copy())
-	return ch, top, err
+	return ch, vals, nil
 }
 
-// copyTop gives every engine.Render call its own values tree (templates may `set` into .Values);
-// chart metadata, capabilities and release data stay shared.
-func copyTop(top chartutil.Values) chartutil.Values {
-	out := chartutil.Values{}
-	for k, v := range top {
-		out[k] = v
-	}
-	out["Values"] = deepCopyValues(top["Values"])
-	return out
-}
-
-func deepCopyValues(v any) any {
-	switch t := v.(type) {
-	case chartutil.Values:
-		o := make(chartutil.Values, len(t))
-		for k, x := range t {
-			o[k] = deepCopyValues(x)
-		}
-		return o
-	case map[string]any:
-		o := make(map[string]any, len(t))
-		for k, x := range t {
-			o[k] = deepCopyValues(x)
-		}
-		return o
-	case []any:
-		o := make([]any, len(t))
-		for i, x := range t {
-			o[i] = deepCopyValues(x)
-		}
-		return o
-	}
-	return v
-}
-
-func engineRender(ch *chart.Chart, top chartutil.Values, dns bool) (s engSnap) {
-	top = copyTop(top)
+// engineRender = chartutil.ToRenderValues + engine.Render on the GIVEN chart object. The render
+// values are composed afresh for every call (templates may `set` into .Values and into elements
+// of default lists; helm hands every render its own copy of the chart defaults), the chart
+// object is shared between calls.
+func engineRender(ch *chart.Chart, vals map[string]any, dns bool) (s engSnap) {
 	defer func() {
 		if x := recover(); x != nil {
 			s = engSnap{Err: true, Text: fmt.Sprintf("PANIC in engine: %v", x)}
 		}
 	}()
+	top, err := chartutil.ToRenderValues(ch, env.DeepCopyMap(vals), chartutil.ReleaseOptions{Name: "rel", Namespace: "ns1", Revision: 1, IsInstall: true}, chartutil.DefaultCapabilities.Copy())
+	if err != nil {
+		return engSnap{Err: true, Text: err.Error()}
+	}
 	e := engine.Engine{EnableDNS: dns}
 	out, err := e.Render(ch, top)
 	if err != nil {
